@@ -610,8 +610,13 @@ int main(int argc, char **argv)
                 free(l); fclose(ef);
                 ef = fopen(errpath, "w"); if (ef) fclose(ef);
             }
-            fprintf(o, "{\"e\":\"Fault\",\"how\":\"%s\",\"cmd\":%ld,\"sub\":%ld,\"incall\":%d,\"msg\":\"%s\",\"in\":%s}}\n",
-                    how, shm->cmd, shm->sub, shm->incall, tail, shm->incall && shm->prefix[0] ? shm->prefix : "{\"e\":\"none\"");
+            {
+                /* a NULL dereference (unchecked allocation result) is told apart from other faults */
+                int nullderef = strstr(tail, "null pointer") != NULL || strstr(tail, "address 0x00000000") != NULL;
+                if (strstr(tail, "use-after-free") || strstr(tail, "double-free") || strstr(tail, "buffer-overflow")) nullderef = 0;
+                fprintf(o, "{\"e\":\"Fault\",\"how\":\"%s\",\"cmd\":%ld,\"sub\":%ld,\"incall\":%d,\"nullderef\":%d,\"msg\":\"%s\",\"in\":%s}}\n",
+                        how, shm->cmd, shm->sub, shm->incall, nullderef, tail, shm->incall && shm->prefix[0] ? shm->prefix : "{\"e\":\"none\"");
+            }
             fclose(o);
             shm->events++;
         }
